@@ -9,18 +9,18 @@ import (
 
 // Scenario is total: anything that parses runs (ids modulo, dangling references skipped).
 type Scenario struct {
-	Property string `json:"property"`
-	Engine   string `json:"engine,omitempty"` // HIST | CONC | PROC | BUF
-	Seed     uint64 `json:"seed"`
-	World    World  `json:"world"`
-	Setup    []Op   `json:"setup,omitempty"` // run by task 0 before the tasks start
-	Tasks    []Task `json:"tasks,omitempty"`
-	Tail     []Op   `json:"tail,omitempty"` // run by task 0 after all tasks ended
-	Faults   []Fault `json:"faults,omitempty"`
-	Tapes    *Tapes `json:"tapes,omitempty"` // nil = draw from PRNG(seed); set = replay (reads past the end give 0)
-	Sched    SchedCfg `json:"sched,omitempty"`
+	Property string       `json:"property"`
+	Engine   string       `json:"engine,omitempty"` // HIST | CONC | PROC | BUF
+	Seed     uint64       `json:"seed"`
+	World    World        `json:"world"`
+	Setup    []Op         `json:"setup,omitempty"` // run by task 0 before the tasks start
+	Tasks    []Task       `json:"tasks,omitempty"`
+	Tail     []Op         `json:"tail,omitempty"` // run by task 0 after all tasks ended
+	Faults   []Fault      `json:"faults,omitempty"`
+	Tapes    *Tapes       `json:"tapes,omitempty"` // nil = draw from PRNG(seed); set = replay (reads past the end give 0)
+	Sched    SchedCfg     `json:"sched,omitempty"`
 	Buf      *BufScenario `json:"buf,omitempty"` // C19
-	Note     string `json:"note,omitempty"`
+	Note     string       `json:"note,omitempty"`
 }
 
 // World holds per-episode parameters of the world process.
@@ -53,11 +53,11 @@ type Clock struct {
 }
 
 type SchedCfg struct {
-	StayPermille int  `json:"stay,omitempty"`   // probability (‰) to keep running the current task at a yield
-	YieldMask    int  `json:"ymask,omitempty"`  // which callback classes yield (bit set; 0 = all)
-	PCTDepth     int  `json:"pct,omitempty"`    // >0: PCT-like mode: exactly d preemptions at tape-chosen yield counts below Horizon
-	Horizon      int  `json:"horizon,omitempty"`
-	MaxYields    int  `json:"max_yields,omitempty"`
+	StayPermille int `json:"stay,omitempty"`  // probability (‰) to keep running the current task at a yield
+	YieldMask    int `json:"ymask,omitempty"` // which callback classes yield (bit set; 0 = all)
+	PCTDepth     int `json:"pct,omitempty"`   // >0: PCT-like mode: exactly d preemptions at tape-chosen yield counts below Horizon
+	Horizon      int `json:"horizon,omitempty"`
+	MaxYields    int `json:"max_yields,omitempty"`
 }
 
 type Task struct {
@@ -82,30 +82,30 @@ type Tapes struct {
 
 // Op is one operation of the world interpreter; which fields are used depends on Op.
 type Op struct {
-	Op    string  `json:"op"`
-	L     int     `json:"l,omitempty"`     // receiver logger id (0 = default logger)
-	R     int     `json:"r,omitempty"`     // id under which the result is stored
-	Kind  string  `json:"kind,omitempty"`  // setting kind for with/set/new-option, or sub-kind
-	Name  string  `json:"name,omitempty"`  // logger name, level title, path, ...
-	Named bool    `json:"named,omitempty"` // pass Name (even if empty) as first arg of New
-	Lvl   int     `json:"lvl,omitempty"`
-	Entry string  `json:"entry,omitempty"` // entry point of a log op
-	Msg   string  `json:"msg,omitempty"`
-	Args  []Arg   `json:"args,omitempty"`
-	Ctx   *CtxSpec `json:"ctx,omitempty"`
-	W     int     `json:"w,omitempty"`    // writer id
-	WK    string  `json:"wk,omitempty"`   // writer kind when created: plain | logwriter | levelsettable | file
-	B     []bool  `json:"b,omitempty"`    // booleans for mode calls
-	S     []string `json:"s,omitempty"`   // strings (layouts, tags, flags ...)
-	I     int64   `json:"i,omitempty"`    // integer parameter
-	J     int64   `json:"j,omitempty"`    // second integer parameter
-	Opts  []Op    `json:"opts,omitempty"` // options of a New(...) call (Kind + params)
-	Tok   string  `json:"tok,omitempty"`  // unique token of a log call
-	T     *TimeSpec `json:"t,omitempty"`  // explicit instant (WriteThru, slog.Record)
-	Keys  []CtxKey `json:"keys,omitempty"`
-	Nil   bool    `json:"nil,omitempty"`  // pass a nil writer / nil ctx
-	Probe bool    `json:"probe,omitempty"`
-	X     []byte  `json:"x,omitempty"` // raw message bytes (overrides Msg)
+	Op    string    `json:"op"`
+	L     int       `json:"l,omitempty"`     // receiver logger id (0 = default logger)
+	R     int       `json:"r,omitempty"`     // id under which the result is stored
+	Kind  string    `json:"kind,omitempty"`  // setting kind for with/set/new-option, or sub-kind
+	Name  string    `json:"name,omitempty"`  // logger name, level title, path, ...
+	Named bool      `json:"named,omitempty"` // pass Name (even if empty) as first arg of New
+	Lvl   int       `json:"lvl,omitempty"`
+	Entry string    `json:"entry,omitempty"` // entry point of a log op
+	Msg   string    `json:"msg,omitempty"`
+	Args  []Arg     `json:"args,omitempty"`
+	Ctx   *CtxSpec  `json:"ctx,omitempty"`
+	W     int       `json:"w,omitempty"`    // writer id
+	WK    string    `json:"wk,omitempty"`   // writer kind when created: plain | logwriter | levelsettable | file
+	B     []bool    `json:"b,omitempty"`    // booleans for mode calls
+	S     []string  `json:"s,omitempty"`    // strings (layouts, tags, flags ...)
+	I     int64     `json:"i,omitempty"`    // integer parameter
+	J     int64     `json:"j,omitempty"`    // second integer parameter
+	Opts  []Op      `json:"opts,omitempty"` // options of a New(...) call (Kind + params)
+	Tok   string    `json:"tok,omitempty"`  // unique token of a log call
+	T     *TimeSpec `json:"t,omitempty"`    // explicit instant (WriteThru, slog.Record)
+	Keys  []CtxKey  `json:"keys,omitempty"`
+	Nil   bool      `json:"nil,omitempty"` // pass a nil writer / nil ctx
+	Probe bool      `json:"probe,omitempty"`
+	X     []byte    `json:"x,omitempty"` // raw message bytes (overrides Msg)
 }
 
 type TimeSpec struct {
@@ -131,8 +131,8 @@ type CtxVal struct {
 
 // Arg is a tagged tree describing one element of a free-form argument list.
 type Arg struct {
-	K     string  `json:"k"`               // kind
-	Key   string  `json:"key,omitempty"`   // for attr/group kinds
+	K     string  `json:"k"`             // kind
+	Key   string  `json:"key,omitempty"` // for attr/group kinds
 	S     string  `json:"s,omitempty"`
 	I     int64   `json:"i,omitempty"`
 	F     float64 `json:"f,omitempty"`
@@ -145,32 +145,32 @@ type Arg struct {
 
 // Event is one entry of the world's event log.
 type Event struct {
-	Q   int    `json:"q"`             // global event sequence number
-	T   int    `json:"t"`             // task
-	K   string `json:"k"`             // kind
-	Op  int    `json:"op,omitempty"`  // index of the op within its list (+1)
-	Ph  string `json:"ph,omitempty"`  // phase: setup | task | tail
-	W   int    `json:"w,omitempty"`   // writer
-	P   []byte `json:"p,omitempty"`   // payload
-	N   int    `json:"n,omitempty"`   // returned n
-	Err string `json:"err,omitempty"`
-	F   string `json:"f,omitempty"`   // fault kind fired
-	L   int    `json:"l,omitempty"`   // level / logger
-	S   string `json:"s,omitempty"`   // site / panic value / text
+	Q   int             `json:"q"`            // global event sequence number
+	T   int             `json:"t"`            // task
+	K   string          `json:"k"`            // kind
+	Op  int             `json:"op,omitempty"` // index of the op within its list (+1)
+	Ph  string          `json:"ph,omitempty"` // phase: setup | task | tail
+	W   int             `json:"w,omitempty"`  // writer
+	P   []byte          `json:"p,omitempty"`  // payload
+	N   int             `json:"n,omitempty"`  // returned n
+	Err string          `json:"err,omitempty"`
+	F   string          `json:"f,omitempty"` // fault kind fired
+	L   int             `json:"l,omitempty"` // level / logger
+	S   string          `json:"s,omitempty"` // site / panic value / text
 	V   json.RawMessage `json:"v,omitempty"`
-	A   int    `json:"a,omitempty"`   // attempt number
-	D   int    `json:"d,omitempty"`   // depth: how many log calls are active on this task
+	A   int             `json:"a,omitempty"` // attempt number
+	D   int             `json:"d,omitempty"` // depth: how many log calls are active on this task
 }
 
 // Result is the last line a world writes for a scenario.
 type Result struct {
-	Done    bool           `json:"done"`
-	Tapes   Tapes          `json:"tapes"`           // consumed
-	Stats   map[string]int `json:"stats,omitempty"` // probes and counters measured in-world
-	Budget  string         `json:"budget,omitempty"` // non-empty: step budget exceeded
-	Races   []string       `json:"races,omitempty"`
-	SimNs   int64          `json:"sim_ns,omitempty"` // simulated time covered
-	Err     string         `json:"err,omitempty"`
+	Done   bool           `json:"done"`
+	Tapes  Tapes          `json:"tapes"`            // consumed
+	Stats  map[string]int `json:"stats,omitempty"`  // probes and counters measured in-world
+	Budget string         `json:"budget,omitempty"` // non-empty: step budget exceeded
+	Races  []string       `json:"races,omitempty"`
+	SimNs  int64          `json:"sim_ns,omitempty"` // simulated time covered
+	Err    string         `json:"err,omitempty"`
 }
 
 // Line is the wire format: exactly one of E / R is set.
@@ -188,11 +188,11 @@ type BufScenario struct {
 }
 
 type BufOp struct {
-	Op    string `json:"op"`
-	N     int    `json:"n,omitempty"`
-	Data  []byte `json:"data,omitempty"`
-	R     int32  `json:"r,omitempty"`     // rune
-	Delim int    `json:"delim,omitempty"`
+	Op    string     `json:"op"`
+	N     int        `json:"n,omitempty"`
+	Data  []byte     `json:"data,omitempty"`
+	R     int32      `json:"r,omitempty"` // rune
+	Delim int        `json:"delim,omitempty"`
 	Peer  []PeerStep `json:"peer,omitempty"` // script of the faulty reader / writer
 }
 
